@@ -33,6 +33,7 @@ class Recorder:
         self.gating = False
         self.blocked: Set[Any] = set()
         self.yields: List[Any] = []
+        self.fail_steps: Set[Any] = getattr(self, "fail_steps", set())
         self.foot: Dict[Any, Tuple[Any, Any]] = {}       # step uuid -> (written object uuid, read object uuid)
 
     def ev(self, kind: str, u: Any) -> None:
@@ -87,6 +88,21 @@ def install() -> None:
             REC.scans += 1
         return orig_iter(self)
     ExecutionPlan.__iter__ = counting_iter  # type: ignore[method-assign]
+
+    orig_transform = TransformFrameworkStep.transform
+
+    def transform(self: Any, *a: Any, **kw: Any) -> Any:
+        if self.uuid in REC.fail_steps:
+            raise RuntimeError("VERIF-FAULT transform")
+        return orig_transform(self, *a, **kw)
+    TransformFrameworkStep.transform = transform  # type: ignore[method-assign]
+    orig_merge = JoinStep._merge_data
+
+    def _merge_data(self: Any, *a: Any, **kw: Any) -> Any:
+        if self.uuid in REC.fail_steps:
+            raise RuntimeError("VERIF-FAULT merge")
+        return orig_merge(self, *a, **kw)
+    JoinStep._merge_data = _merge_data  # type: ignore[method-assign]
 
     from mloda.core.runtime.run import ExecutionOrchestrator
     orig_stream = ExecutionOrchestrator.compute_stream
